@@ -17,6 +17,9 @@ pub enum VT {
     V128,
     FuncRef,
     ExternRef,
+    /// `anyref`: only as the type of an immutable global holding a GC struct (its initialiser has
+    /// several references); never a parameter, local or operand of generated code
+    AnyRef,
 }
 
 impl VT {
@@ -30,6 +33,7 @@ impl VT {
             VT::V128 => E::V128,
             VT::FuncRef => E::Ref(wasm_encoder::RefType::FUNCREF),
             VT::ExternRef => E::Ref(wasm_encoder::RefType::EXTERNREF),
+            VT::AnyRef => E::Ref(wasm_encoder::RefType::ANYREF),
         }
     }
     pub fn from_parser(v: wasmparser::ValType) -> Option<VT> {
@@ -42,6 +46,7 @@ impl VT {
             P::V128 => VT::V128,
             P::Ref(r) if r == wasmparser::RefType::FUNCREF => VT::FuncRef,
             P::Ref(r) if r == wasmparser::RefType::EXTERNREF => VT::ExternRef,
+            P::Ref(r) if r == wasmparser::RefType::ANYREF => VT::AnyRef,
             _ => return None,
         })
     }
@@ -55,6 +60,7 @@ impl VT {
             VT::V128 => D::V128,
             VT::FuncRef => D::FuncRefNull,
             VT::ExternRef => D::ExternRefNull,
+            VT::AnyRef => D::AnyNull,
         }
     }
     /// the instruction pushing this type's default value
@@ -67,6 +73,7 @@ impl VT {
             VT::V128 => Ins::V128Const(0),
             VT::FuncRef => Ins::RefNull(true),
             VT::ExternRef => Ins::RefNull(false),
+            VT::AnyRef => panic!("harness: anyref has no default instruction in generated code"),
         }
     }
     pub const NUMS: [VT; 4] = [VT::I32, VT::I64, VT::F32, VT::F64];
